@@ -87,7 +87,7 @@ static BuildNode* mkNode(int i, bool virt, bool mutated, bool ts) {
   n->mutated = mutated; n->commandTimestamp = ts; g_names[i] = new std::string(kNames[i]); return n;
 }
 // ---- ideal hash: the signature is the transcript of what was fed into the hash chain
-#if VF_CASE == 3
+#if VF_CASE == 3 || VF_CASE == 6
 struct Ent { uint64_t prev; int kind; unsigned len; unsigned char b[2]; };
 static Ent g_tr[40]; static unsigned g_ntr = 0;
 static uint64_t intern(uint64_t prev, int kind, const char* p, unsigned len) {
@@ -198,6 +198,19 @@ extern "C" void harness_extcmd(void) {
     VF_WITNESS_ALSO("command ran");
   }
   if (g_resSuccessful) { VF_ASSERT(g_resN == K, "a success records one file record per output"); for (unsigned i = 0; i < K; i++) if (!virt[i]) VF_ASSERT(same(g_resInfo[i], g_cur[i]) && g_resInfo[i].mode == g_cur[i].mode, "...describing the output as it is now"); }
+#elif VF_CASE == 6
+  // node signature (BuildNode::getSignature): the rule of a produced node changes its signature when the SET-UP of its producers changes -
+  // two nodes of the same kind with VF_AI / VF_BI producers (names 0..2 bytes over {a,b}) have equal signatures exactly when the producer names agree in order
+  Def& A = *new Def; Def& B = *new Def; pickDef(A, VF_AI, 0); pickDef(B, VF_BI, 0);
+  BuildNode* na = BuildNode::makePlain("n").release(); BuildNode* nb = BuildNode::makePlain("n").release();
+  na->getProducers().reserve(3); nb->getProducers().reserve(3);
+  for (unsigned i = 0; i < A.nin; i++) na->getProducers().push_back(new HCmd(StringRef(A.in[i], A.inLen[i])));
+  for (unsigned i = 0; i < B.nin; i++) nb->getProducers().push_back(new HCmd(StringRef(B.in[i], B.inLen[i])));
+  uint64_t sa = na->getSignature().value, sb = nb->getSignature().value;
+  bool same = A.nin == B.nin; for (unsigned i = 0; same && i < A.nin; i++) if (!eqStr(A.in[i], A.inLen[i], B.in[i], B.inLen[i])) same = false;
+  vf_observe(sa == sb);
+  if (same) VF_ASSERT(sa == sb, "nodes with the same producers have equal signatures");
+  else VF_ASSERT(sa != sb, "a node whose producers changed (another producer name, another number of producers) has another signature (given an injective hash)");
 #else
   Def& A = *new Def; Def& B = *new Def; pickDef(A, VF_AI, VF_AO); pickDef(B, VF_BI, VF_BO);
 #ifdef VF_EXCLUDE_LIST_BOUNDARY
